@@ -7,4 +7,4 @@ rsync -a --exclude .git /repo/ "$SCR/"
 if ! (cd "$SCR" && patch -p1 -s --fuzz=3 < "$D/patch.diff" >/dev/null 2>&1); then echo "PATCH-DOES-NOT-APPLY $D"; exit 9; fi
 (cd "$SCR" && PYTHONPATH="$SCR" timeout 300 /venv/bin/python "$D/demo.py" >/dev/null 2>&1); echo "demo_exit_with_patch=$?"
 (cd /repo && PYTHONPATH=/repo timeout 300 /venv/bin/python "$D/demo.py" >/dev/null 2>&1); echo "demo_exit_on_repo=$?"
-PYVC_REPO="$SCR" timeout 1500 /verif/check "$P" 2>&1 | grep -E "^VIOLATION|^UNDECIDED|ERROR|discharged" | cut -c1-200 | head -8
+PYVC_REPO="$SCR" timeout 1500 /verif/check "$P" 2>&1 | grep -E "^VIOLATION|^UNDECIDED|ERROR|discharged" | cut -c1-200 | sort -r | head -40
